@@ -37,6 +37,9 @@ CLAIMED = {
   "C17": ("fault injection with a symbolic failing ordinal: every function evaluation compares its index with one symbolic integer k, the SYMX explorer splits on the z3-feasible classes of k (N+1, N discovered) through the real write()/action_tabulate code with a recording sink / real file; a z3 completeness VC shows the explored classes cover every integer k; each partial-output path is replayed with the model's concrete k",
           "for every tabulation target, every position k of the failing evaluation (pair, density, embedding, dipole, quadrupole functions) on the stated grids: nothing written and the exception propagates; no failure: whole table; large grids (size-dependent buffering) with k in a stated candidate set",
           "loop counts concrete per run (small grids exhaustive in k; large grids over a candidate set of k); failures modelled as exceptions leaving the callable; potable end-to-end runs on real files are a concrete replay layer", "3 C17"),
+  "C18": ("symbolic execution (SYMX) of TableReaderBase.getValue/_findIndex over symbolic strictly increasing data and query point (every path of the bisect search) against a z3 If-oracle of the piecewise-linear specification; plotToFile family on uninterpreted functions with symbolic range; table-form data as opaque symbolic values through the real parser/builder/registry into a contract stub of scipy's spline; CrossHair (z3) on DatReader._populate over symbolic text",
+          "legacy reader: value at data points, linear interpolant between, 0 outside, for all data/query values (1..4 points quick, 1..6 thorough); plot: exactly `steps` rows on the stated grid with y=f(x) for all ranges/functions; table forms: data reach the interpolant unchanged and in order, ext=1, x/y == xy, derivatives wired, no leakage from earlier models; DatReader: counterexample search only (not confirmed)",
+          NOTE + "; FITPACK's interpolation is assumed as scipy's documented contract; the three DatReader conditions cannot be confirmed over all paths (float() of a symbolic string is realised) and are reported as inconclusive - they can only raise alarms", "3 C18"),
   "C19": (SYMX % "GULP, ADP, funcfl and Excel writers",
           "same slot-level term comparison for the secondary targets (funcfl charge via a sqrt atom with Z>=0, Z^2*27.2*0.529 = r*phi)",
           NOTE + "; workbook cells read from the openpyxl object", "3 C19"),
